@@ -876,7 +876,8 @@ func (p *prop) runEnf(f []string) core.Outcome {
 				k, _ := strconv.Atoi(site)
 				if k < len(sites) && !foldEq(sites[k], rq.sni) {
 					class := "strict-sni-host-bypass"
-					if _, _, e := net.SplitHostPort(rq.host); e != nil && bracketed {
+					// narrow known class: Host is bracketed without a (valid) port AND the SNI is that raw Host string
+					if _, _, e := net.SplitHostPort(rq.host); e != nil && bracketed && foldEq(rq.sni, rq.host) {
 						class = "strict-sni-host-bypass:bracketed-host-without-port"
 					}
 					fail(class, fmt.Sprintf("strict SNI-Host in effect, connection SNI %q, Host %q: request was routed to the handler of site %q", rq.sni, rq.host, sites[k]))
